@@ -346,3 +346,9 @@ Proof. reflexivity. Qed.
 Lemma route_Apply_error pfx pbits prf lt dep epoch now :
   is_ok (route_Apply true pfx pbits prf lt dep epoch now None) = false.
 Proof. reflexivity. Qed.
+
+(* the advertised prefixes are networks: no bits below the prefix length *)
+Lemma prefix_list_masked pbits l p : In p (prefix_list pbits l) -> mask p pbits = p.
+Proof.
+  rewrite prefix_list_in. intros [a [_ [_ <-]]]. apply mask_mask. apply N.le_refl.
+Qed.
